@@ -173,6 +173,8 @@ pub enum Op {
 
 pub struct Scenario {
     pub name: &'static str,
+    /// largest pre-emption bound explored for this scenario (None = the tier's)
+    pub max_bound: Option<usize>,
     pub exprs: Vec<&'static str>,
     /// expression indices compiled from the custom runtime
     pub custom: Vec<usize>,
@@ -205,6 +207,7 @@ pub fn scenarios(tier: Tier) -> Vec<Scenario> {
     let d = || vec![json!({"a": [{"k": 2, "v": "x"}, {"k": 1, "v": "y"}], "b": [1, [2]], "s": "text"}), json!([3, 1, 2])];
     let mut v = vec![
         Scenario {
+            max_bound: None,
             name: "failing-calls-at-different-offsets",
             exprs: vec!["abs('x')", "        length(`1`)", "s && nosuch(s)"],
             custom: vec![],
@@ -212,6 +215,7 @@ pub fn scenarios(tier: Tier) -> Vec<Scenario> {
             threads: vec![vec![Op::Search(0, 0), Op::Search(1, 0)], vec![Op::Search(1, 0), Op::Search(2, 0)]],
         },
         Scenario {
+            max_bound: None,
             name: "by-functions-with-nested-calls",
             exprs: vec!["sort_by(a, &to_string(k))[0].v", "max_by(@, &abs(@))", "max_by(a, &to_array(k))"],
             custom: vec![],
@@ -219,6 +223,7 @@ pub fn scenarios(tier: Tier) -> Vec<Scenario> {
             threads: vec![vec![Op::Search(0, 0), Op::Search(2, 0)], vec![Op::Search(1, 1), Op::Search(0, 0)]],
         },
         Scenario {
+            max_bound: None,
             name: "projections-and-shared-literal",
             exprs: vec!["a[*].[`{\"k\":1}`, v]", "b[] | [0]", "a[?k > `1`].v | [0]"],
             custom: vec![],
@@ -226,6 +231,7 @@ pub fn scenarios(tier: Tier) -> Vec<Scenario> {
             threads: vec![vec![Op::Search(0, 0), Op::Search(1, 0)], vec![Op::Search(0, 0), Op::Search(2, 0)]],
         },
         Scenario {
+            max_bound: None,
             name: "custom-runtime-yielding-functions",
             exprs: vec!["yielding(s)", "failing(s) || s", "[yielding(b), abs('q')]"],
             custom: vec![0, 1, 2],
@@ -233,6 +239,7 @@ pub fn scenarios(tier: Tier) -> Vec<Scenario> {
             threads: vec![vec![Op::Search(0, 0), Op::Search(1, 0)], vec![Op::Search(2, 0), Op::Search(0, 0)]],
         },
         Scenario {
+            max_bound: None,
             name: "compile-in-threads",
             exprs: vec!["a[0].k"],
             custom: vec![],
@@ -240,8 +247,22 @@ pub fn scenarios(tier: Tier) -> Vec<Scenario> {
             threads: vec![vec![Op::CompileSearch("abs(b)", 0), Op::Search(0, 0)], vec![Op::CompileSearch("a[", 0), Op::CompileSearch("s", 0)]],
         },
     ];
+    // deep expressions whose evaluations overlap: any per-process (instead of per-search)
+    // resource accounting -- depth counters, scratch stacks -- shows up as a divergence
+    lazy_static::lazy_static! {
+        static ref DEEP: String = format!("a{}", ".a".repeat(700));
+        static ref DEEP2: String = format!("{}a{}", "[".repeat(350), "]".repeat(350));
+    }
+    v.push(Scenario {
+        max_bound: Some(1),
+        name: "deep-expressions-overlap",
+        exprs: vec![DEEP.as_str(), DEEP2.as_str()],
+        custom: vec![],
+        inputs: vec![json!({"a": {"a": 1}})],
+        threads: if tier == Tier::Thorough { vec![vec![Op::Search(0, 0)], vec![Op::Search(1, 0)], vec![Op::Search(0, 0)]] } else { vec![vec![Op::Search(0, 0)], vec![Op::Search(1, 0)]] },
+    });
     if tier == Tier::Thorough {
-        for s in v.iter_mut() {
+        for s in v.iter_mut().filter(|s| s.max_bound.is_none()) {
             let extra = s.threads[0].clone();
             s.threads.push(extra.into_iter().rev().collect());
         }
@@ -309,7 +330,7 @@ fn body(s: &'static Scenario, expected: &'static Vec<Vec<String>>) {
 
 fn config() -> shuttle::Config {
     let mut c = shuttle::Config::new();
-    c.stack_size = 1 << 20;
+    c.stack_size = 4 << 20;
     c.max_steps = shuttle::MaxSteps::FailAfter(1_000_000);
     c.failure_persistence = shuttle::FailurePersistence::None;
     c
@@ -340,7 +361,15 @@ pub fn explore(s: &'static Scenario, bounds: &[usize], labels: &[&str], cap: u64
         let sched = PbDfs::new(b, cap);
         let flag = sched.capped.clone();
         let runner = shuttle::Runner::new(sched, config());
-        let n = runner.run(move || body(s, expected));
+        let n = match std::panic::catch_unwind(std::panic::AssertUnwindSafe(|| runner.run(move || body(s, expected)))) {
+            Ok(n) => n,
+            Err(p) => {
+                // not a verdict: the executions of one scenario were not reproducible (divergence
+                // while replaying a schedule prefix), e.g. state leaking from one execution into the next
+                eprintln!("MACHINERY: schedule exploration of '{}' aborted: {}", s.name, crate::implx::panic_msg(p));
+                std::process::exit(2);
+            }
+        };
         executions.push((b, n as u64));
         capped |= flag.load(Ordering::Relaxed);
         if let Some((trace, got)) = FAIL.lock().unwrap().clone() {
@@ -456,13 +485,15 @@ fn explore_first_use(bound: usize, st: &mut Stats) -> Option<(Vec<usize>, String
 }
 
 /// supporting only: the same bodies free-running on real OS threads
-fn real_threads_smoke(s: &'static Scenario, rounds: usize) -> bool {
-    let expected = sequential(s);
+fn real_threads_smoke(s: &'static Scenario, rounds: usize, copies: usize) -> bool {
+    let expected: Vec<Vec<String>> = sequential(s).into_iter().cycle().take(s.threads.len() * copies).collect();
     for _ in 0..rounds {
         let sh = build_shared(s);
         let hs: Vec<_> = s
             .threads
             .iter()
+            .cycle()
+            .take(s.threads.len() * copies)
             .map(|ops| {
                 let sh = sh.clone();
                 let ops = ops.clone();
@@ -488,7 +519,10 @@ pub fn run(tier: Tier, obligations: u64) -> i32 {
     let scs: &'static Vec<Scenario> = leak(scenarios(tier));
     let mut table = serde_json::Map::new();
     for s in scs.iter() {
-        let r = explore(s, &bounds, &full, tier.pick(200_000, 5_000_000));
+        let sb: Vec<usize> = bounds.iter().cloned().filter(|b| s.max_bound.map_or(true, |m| *b <= m)).collect();
+        let deep = s.max_bound.is_some();
+        let labels_here: Vec<&str> = if deep { vec!["interpret"] } else { full.clone() };
+        let r = explore(s, &sb, &labels_here, tier.pick(200_000, 5_000_000));
         let total: u64 = r.executions.iter().map(|x| x.1).sum();
         st.states += total;
         st.transitions += r.points;
@@ -506,7 +540,7 @@ pub fn run(tier: Tier, obligations: u64) -> i32 {
                 expected: format!("{:?}", sequential(s)),
                 actual: got,
             });
-        } else {
+        } else if !deep {
             // unbounded DFS on the coarse label set
             LABELS.store(mask_of(&coarse), Ordering::Relaxed);
             let r2 = explore(s, &[usize::MAX], &coarse, tier.pick(100_000, 2_000_000));
@@ -531,7 +565,7 @@ pub fn run(tier: Tier, obligations: u64) -> i32 {
             }
         }
         st.sample(|| json!({"scenario": s.name, "threads": s.threads.iter().map(|t| format!("{:?}", t)).collect::<Vec<_>>(), "expressions": s.exprs}));
-        let ok = real_threads_smoke(s, tier.pick(50, 500));
+        let ok = real_threads_smoke(s, tier.pick(50, 500), if deep { 8 } else { 1 });
         entry["real_threads_smoke_supporting_only"] = json!(ok);
         if !ok {
             st.violate(Violation { key: format!("C16/real-threads/{}", s.name), check: "real-threads".into(), case: json!({"kind": "real-threads", "scenario": s.name}), expected: "sequential results".into(), actual: "divergent".into() });
